@@ -385,6 +385,17 @@ func Run(t *testing.T, rng *emit.Rand, cfg Config, maxOps int, gen Gen) Result {
 					}
 				case Delete:
 					out.Deletes++
+					if op.Retry {
+						// the retry is issued from the tail the store reports once its writes are synced: after a failed
+						// commit of the delete batch (context-aware datastore) the headers of the range are still on disk
+						// and that Sync walks the in-memory tail back over them
+						_ = r.s.Sync(ctx)
+						quiesce()
+						tl = 0
+						if h, err := r.s.Tail(ctx); err == nil {
+							tl = h.Height()
+						}
+					}
 					if op.Retry && tl != 0 && tl > op.From && tl < op.To {
 						op.From = tl // the retry starts at the tail the failed deletion left
 						script[len(script)-1].From = tl
